@@ -158,6 +158,15 @@ def rule_cancel_roots_only(ctx, facts, rule):
         some_inner = discr_cond_edges(fn, prov, r"Option<fastrace::span::SpanInner>", ["Some"])
         some_cid = discr_cond_edges(fn, prov, r"^core::option::Option<usize>$", ["Some"],
                                     place_pred=lambda p: ".collect_id" in p["p"])
+        # also accepted: one test on a value derived from both (inner.as_ref().and_then(|i| i.collect_id.map(..)))
+        for sb in range(len(fn.blocks)):
+            info = fn.switch_info(sb)
+            if info and info.get("kind") == "discr" and "Option<" in info["ty"] and not fn.blocks[sb]["cleanup"]:
+                src = prov.of_place(fn, info["place"])
+                if any(o.kind == "param" and o.key == 1 and ".inner" in o.path for o in src):
+                    some_inner = set(some_inner) | set(fn.variant_edges(sb, ["Some"]))
+                if any(o.kind == "param" and o.key == 1 and ".collect_id" in o.path for o in src):
+                    some_cid = set(some_cid) | set(fn.variant_edges(sb, ["Some"]))
         g1 = fn.guarded(sites, some_inner) and bool(some_inner)
         g2 = fn.guarded(sites, some_cid) and bool(some_cid)
         ctx.check(bool(sites) and g1 and g2, rule, fn.path, fn.loc(sites[0]) if sites else fn.span,
